@@ -91,7 +91,12 @@ func proves(w wire, c *vkit.ClientSpec) bool {
 		}
 		return (w.hasBasic && w.basicID == c.ID && w.basicSec == c.Secret) || (w.bodyID == c.ID && w.bodySec == c.Secret)
 	case "private_key_jwt":
-		return w.hasAssertion && w.assertValid && w.assertIss == c.ID
+		if w.hasAssertion && w.assertValid && w.assertIss == c.ID {
+			return true
+		}
+		// the secret the storage holds and accepts for this client: a genuine credential of c, presented by a method c is
+		// not registered for (callerIs never calls that clean)
+		return c.Secret != "" && ((w.hasBasic && w.basicID == c.ID && w.basicSec == c.Secret) || (w.bodyID == c.ID && w.bodySec == c.Secret))
 	case "none":
 		return w.claimed()[c.ID]
 	}
@@ -118,7 +123,12 @@ func callerIs(w wire, r *vkit.ClientSpec, all []vkit.ClientSpec) (int, string) {
 	case "client_secret_post":
 		clean = only && !w.hasBasic && w.bodySec == r.Secret && !w.hasAssertion
 	case "private_key_jwt":
-		clean = only && !w.hasBasic && w.bodySec == ""
+		clean = only && !w.hasBasic && w.bodySec == "" && w.hasAssertion && w.assertValid
+		if only && !w.hasAssertion {
+			// "authenticated as the very client": the caller holds a credential of r that the storage accepts; that r is registered
+			// for another method is what property C05 judges, the statement of C04 does not name the method
+			return 0, "stored-secret-instead-of-assertion"
+		}
 	case "none":
 		clean = only && !w.hasBasic && w.bodySec == "" && !w.hasAssertion
 	}
